@@ -293,7 +293,7 @@ def rand_case(rng, want=None):
         u = rng.random()
         if u < 0.12:
             Y = dict(kind="zero")
-        elif u < 0.16 and mode != "implicit":
+        elif u < 0.16 and mode != "implicit" and family != "sympy":  # np.isclose on sympy objects is a TypeError of numpy itself
             Y = dict(kind="other")
         else:
             kind = "sympy" if family == "sympy" else rng.choice(["dense", "sparse"])
